@@ -560,3 +560,210 @@ Example C07_sniff_examples :
   find_declared_encoding lo (MStr [60;109;101;116;97;32;99;104;97;114;383;101;116;61;120;62]) true false = Some [120] /\
   find_declared_encoding lo (MBytes [60;109;101;116;97;32;99;104;97;114;115;101;116;61;120;62]) false false = None.
 Proof. vm_compute. repeat split; reflexivity. Qed.
+
+(* ======================================================================================================
+   The codecs are no longer inputs either, for ascii, iso-8859-1, windows-1252, utf-8 (and, decoding only,
+   utf-16-le/be, utf-32-le/be): Model/Codecs.v defines them in Gallina (single-byte tables and codec names read
+   from the running interpreter into Gen/T_Codecs.v; UTF-8 strict and with errors="replace" as CPython does it).
+   The theorems below quantify over EVERY byte string, and over every [known] / [decode] that agree with Python
+   on the modelled names (extends_known / extends_decode) — whatever any other codec does, whatever the sniffer
+   and chardet return. Model.Codecs.c_known / c_decode (what the extracted model runs) are such a pair.
+   ====================================================================================================== *)
+From BS Require Model.Encode.
+From BS Require Import Spec.Utf8 Gen.T_Codecs Model.Codecs Proofs.Utf8Codec Proofs.CodecsProofs.
+
+(* ---- table obligations about the generated codec data ---- *)
+(* the five bytes windows-1252 leaves undefined (from the interpreter's table, not from memory), the identity
+   on ASCII and U+00A0..U+00FF; ascii and iso-8859-1 in closed form *)
+Theorem C07_codec_tables :
+  (forall b, b < 256 -> (sb_dec_byte cd_cp1252_table b = None <-> In b [129; 141; 143; 144; 157])) /\
+  (forall b, b < 128 \/ 160 <= b < 256 -> sb_dec_byte cd_cp1252_table b = Some b) /\
+  (forall b, sb_dec_byte cd_ascii_table b = if b <? 128 then Some b else None) /\
+  (forall b, sb_dec_byte cd_latin1_table b = if b <? 256 then Some b else None) /\
+  cd_decode_replacement = 65533.
+Proof.
+  exact (conj cp1252_undefined_iff (conj cp1252_dec_byte_id (conj ascii_dec_byte (conj latin1_dec_byte eq_refl)))).
+Qed.
+Print Assumptions C07_codec_tables.
+
+(* the names: what the default candidates and their usual spellings denote (a wrong entry breaks this) *)
+Theorem C07_codec_names :
+  map codec_of_name [n_utf8; n_windows1252; n_ascii; n_utf16le; n_utf16be; n_utf32le; n_utf32be] =
+  [Some Utf8; Some Cp1252; Some Ascii; Some Utf16LE; Some Utf16BE; Some Utf32LE; Some Utf32BE] /\
+  map codec_of_name [[108;97;116;105;110;45;49]; [105;115;111;45;56;56;53;57;45;49]; [99;112;49;50;53;50];
+                     [117;115;45;97;115;99;105;105]; [117;116;102;56]; [85;84;70;45;56]] =
+  [Some Latin1; Some Latin1; Some Cp1252; Some Ascii; Some Utf8; Some Utf8].
+Proof. split; vm_compute; reflexivity. Qed.
+Print Assumptions C07_codec_names.
+
+(* the concrete [known] / [decode] of the extracted model satisfy the hypotheses of the theorems below *)
+Theorem C07_concrete_codecs_extend : extends_known c_known /\ extends_decode c_decode.
+Proof. exact c_extends. Qed.
+Print Assumptions C07_concrete_codecs_extend.
+
+(* ---- round trips: decode (encode s) = s and encode (decode b) = b, all strings / byte strings ---- *)
+Theorem C07_codec_decode_encode : forall k u b, encoder k = true ->
+  Encode.enc_strict (codec_enc_char k) u = Some b -> codec_decode k Strict b = Some u.
+Proof. exact codec_decode_encode. Qed.
+Print Assumptions C07_codec_decode_encode.
+
+Theorem C07_codec_encode_decode : forall k bs u, encoder k = true ->
+  codec_decode k Strict bs = Some u -> Encode.enc_strict (codec_enc_char k) u = Some bs.
+Proof. exact codec_encode_decode. Qed.
+Print Assumptions C07_codec_encode_decode.
+
+(* strict UTF-8 decoding yields Unicode scalar values only (no surrogates, nothing above U+10FFFF) and accepts
+   exactly the well-formed byte strings of Spec/Utf8.v *)
+Theorem C07_utf8_strict_is_wellformed : forall bs,
+  (exists u, utf8_decode bs = Some u) <-> valid_utf8 bs.
+Proof. exact utf8_strict_is_wellformed. Qed.
+Print Assumptions C07_utf8_strict_is_wellformed.
+
+(* ---- totality ---- *)
+(* errors="replace" never fails, for any of the eight decoders, on any byte string *)
+Theorem C07_replace_total : forall k bs, exists u, codec_decode k Replace bs = Some u.
+Proof. exact codec_replace_total. Qed.
+Print Assumptions C07_replace_total.
+
+(* iso-8859-1 decodes every byte string (to the same numbers) *)
+Theorem C07_latin1_total : forall bs, is_bytes bs = true ->
+  codec_decode Latin1 Strict bs = Some bs /\ codec_decode Latin1 Replace bs = Some bs.
+Proof. exact latin1_total. Qed.
+Print Assumptions C07_latin1_total.
+
+(* windows-1252 rejects exactly the byte strings that contain one of its five undefined bytes *)
+Theorem C07_cp1252_strict_fails_iff : forall bs, is_bytes bs = true ->
+  (codec_decode Cp1252 Strict bs = None <-> exists b, In b bs /\ In b [129; 141; 143; 144; 157]).
+Proof. exact cp1252_strict_fails_iff. Qed.
+Print Assumptions C07_cp1252_strict_fails_iff.
+
+(* where strict decoding succeeds, errors="replace" gives the same text (single-byte codecs) *)
+Theorem C07_single_byte_replace_agrees : forall tbl bs u,
+  sb_decode tbl bs = Some u -> sb_decode_replace tbl bs = u.
+Proof. exact sb_replace_agrees. Qed.
+Print Assumptions C07_single_byte_replace_agrees.
+
+(* ---- ASCII-only input decodes identically under ascii, iso-8859-1, windows-1252 and utf-8 ---- *)
+Theorem C07_ascii_agree : forall k m bs, encoder k = true -> is_ascii bs = true -> codec_decode k m bs = Some bs.
+Proof. exact ascii_agree. Qed.
+Print Assumptions C07_ascii_agree.
+
+Theorem C07_ascii_strict_iff : forall bs, codec_decode Ascii Strict bs = Some bs <-> is_ascii bs = true.
+Proof. exact ascii_strict_iff. Qed.
+Print Assumptions C07_ascii_strict_iff.
+
+(* so whichever of the four is used, UnicodeDammit returns ASCII-only input as it is *)
+Theorem C07_ascii_input_text : forall known decode sniff chardet b a u o k,
+  extends_decode decode -> b <> [] -> is_ascii (fst (strip_bom b)) = true ->
+  r_text (dammit Encode.lower_ascii known decode sniff chardet (MBytes b) a) = Some u ->
+  r_orig (dammit Encode.lower_ascii known decode sniff chardet (MBytes b) a) = Some o ->
+  codec_of_name o = Some k -> encoder k = true ->
+  u = fst (strip_bom b).
+Proof. exact ascii_input_text. Qed.
+Print Assumptions C07_ascii_input_text.
+
+(* ---- the last resort never fails: unless the caller excludes windows-1252, EVERY non-empty byte string gets a
+        text (this is why the constructor raises ParserRejectedMarkup for no document) ---- *)
+Theorem C07_last_resort_never_fails : forall known decode sniff chardet b a,
+  extends_known known -> extends_decode decode -> b <> [] ->
+  excluded Encode.lower_ascii (a_exclude a) n_windows1252 = false ->
+  r_text (dammit Encode.lower_ascii known decode sniff chardet (MBytes b) a) <> None.
+Proof. exact last_resort_never_fails. Qed.
+Print Assumptions C07_last_resort_never_fails.
+
+(* the same for utf-8 (errors="replace" never fails): "no text at all" needs BOTH last resorts excluded — and then
+   it does happen (the constructor raises ParserRejectedMarkup) *)
+Theorem C07_utf8_never_fails : forall known decode sniff chardet b a,
+  extends_known known -> extends_decode decode -> b <> [] ->
+  excluded Encode.lower_ascii (a_exclude a) n_utf8 = false ->
+  r_text (dammit Encode.lower_ascii known decode sniff chardet (MBytes b) a) <> None.
+Proof. exact utf8_never_fails. Qed.
+Print Assumptions C07_utf8_never_fails.
+
+Theorem C07_no_text_possible :
+  r_text (c_dammit (MBytes [129]) (mkargs [] [] [] [n_utf8; n_windows1252] true)) = None.
+Proof. exact no_text_possible. Qed.
+Print Assumptions C07_no_text_possible.
+
+(* ---- valid UTF-8 with no contrary indication is decoded as UTF-8, by the decoder defined in Coq ---- *)
+Theorem C07_valid_utf8_wins : forall known decode sniff chardet b a u,
+  extends_known known -> extends_decode decode -> b <> [] ->
+  a_known a = [] -> a_override a = [] -> a_user a = [] ->
+  chardet (MBytes (fst (strip_bom b))) = None ->
+  (snd (strip_bom b) = None \/ snd (strip_bom b) = Some n_utf8) ->
+  (sniff (MBytes (fst (strip_bom b))) (a_is_html a) = None \/
+   sniff (MBytes (fst (strip_bom b))) (a_is_html a) = Some n_utf8) ->
+  excluded Encode.lower_ascii (a_exclude a) n_utf8 = false ->
+  utf8_decode (fst (strip_bom b)) = Some u ->
+  outcome (dammit Encode.lower_ascii known decode sniff chardet (MBytes b) a) = (Some u, Some n_utf8, false).
+Proof. exact valid_utf8_wins. Qed.
+Print Assumptions C07_valid_utf8_wins.
+
+(* ---- UnicodeDammit(data) with no arguments, no byte-order mark, no declaration — completely, for every byte
+        string: UTF-8 if well formed; else windows-1252 if none of its undefined bytes occurs; else UTF-8 with
+        U+FFFD substituted and contains_replacement_characters set ---- *)
+Theorem C07_default_detection : forall known decode sniff chardet b,
+  extends_known known -> extends_decode decode -> b <> [] ->
+  snd (strip_bom b) = None ->
+  sniff (MBytes (fst (strip_bom b))) true = None -> chardet (MBytes (fst (strip_bom b))) = None ->
+  outcome (dammit Encode.lower_ascii known decode sniff chardet (MBytes b) no_args) =
+  match utf8_decode (fst (strip_bom b)) with
+  | Some u => (Some u, Some n_utf8, false)
+  | None =>
+      match sb_decode cd_cp1252_table (fst (strip_bom b)) with
+      | Some u => (Some u, Some n_windows1252, false)
+      | None => (Some (utf8_decode_replace (fst (strip_bom b))), Some n_utf8, true)
+      end
+  end.
+Proof. exact default_detection. Qed.
+Print Assumptions C07_default_detection.
+
+(* ---- errors="replace" is strict decoding wherever that succeeds: all eight decoders (UTF-8: CPython's
+        maximal-subpart machine against the strict decoder, by induction over the strict decoder's cases) ---- *)
+Theorem C07_replace_agrees_with_strict : forall k bs u,
+  codec_decode k Strict bs = Some u -> codec_decode k Replace bs = Some u.
+Proof. exact codec_replace_agrees. Qed.
+Print Assumptions C07_replace_agrees_with_strict.
+
+(* ---- a candidate naming iso-8859-1 (either spelling, any case) makes the strict pass succeed on every byte
+        string: a text, and contains_replacement_characters = False ---- *)
+Theorem C07_latin1_candidate_always_clean : forall known decode sniff chardet b a c,
+  extends_known known -> extends_decode decode -> b <> [] -> is_bytes (fst (strip_bom b)) = true ->
+  In c (encodings Encode.lower_ascii sniff chardet (MBytes b) a) ->
+  (Encode.lower_ascii c = [108; 97; 116; 105; 110; 45; 49] \/
+   Encode.lower_ascii c = [105; 115; 111; 45; 56; 56; 53; 57; 45; 49]) ->
+  r_text (dammit Encode.lower_ascii known decode sniff chardet (MBytes b) a) <> None /\
+  r_flag (dammit Encode.lower_ascii known decode sniff chardet (MBytes b) a) = false.
+Proof. exact latin1_candidate_always_clean. Qed.
+Print Assumptions C07_latin1_candidate_always_clean.
+
+(* ---- with no known-definite encoding, the encoding a byte-order mark announces is used whenever the rest of
+        the data decodes in it (UTF-8 / UTF-16 / UTF-32 decoders defined in Coq), whatever the document declares;
+        the five names strip_byte_order_mark reports are the modelled ones ---- *)
+Theorem C07_bom_encoding_wins : forall known decode sniff chardet b a n k u,
+  extends_known known -> extends_decode decode -> b <> [] ->
+  a_known a = [] -> a_override a = [] ->
+  snd (strip_bom b) = Some n -> In n [n_utf8; n_utf16le; n_utf16be; n_utf32le; n_utf32be] ->
+  excluded Encode.lower_ascii (a_exclude a) n = false ->
+  codec_of_name n = Some k -> codec_decode k Strict (fst (strip_bom b)) = Some u ->
+  outcome (dammit Encode.lower_ascii known decode sniff chardet (MBytes b) a) = (Some u, Some n, false).
+Proof. exact bom_encoding_wins. Qed.
+Print Assumptions C07_bom_encoding_wins.
+
+Theorem C07_bom_names_modelled :
+  map (fun r => rule_name r) bom_rules = [n_utf16be; n_utf16le; n_utf8; n_utf32be; n_utf32le] /\
+  map codec_of_name [n_utf8; n_utf16le; n_utf16be; n_utf32le; n_utf32be] =
+  [Some Utf8; Some Utf16LE; Some Utf16BE; Some Utf32LE; Some Utf32BE].
+Proof. exact bom_names_modelled. Qed.
+Print Assumptions C07_bom_names_modelled.
+
+Example C07_bom_encoding_wins_satisfiable :
+  outcome (c_dammit (MBytes [255; 254; 233; 0; 61; 216; 0; 222]) no_args) = (Some [233; 128512], Some n_utf16le, false).
+Proof. vm_compute. reflexivity. Qed.
+
+(* the hypotheses are satisfiable, and the three branches all occur: "cé" as UTF-8, as latin-1, and followed by 0x81 (E9 81 is a truncated sequence: one U+FFFD) *)
+Example C07_default_detection_examples :
+  outcome (c_dammit (MBytes [99; 195; 169]) no_args) = (Some [99; 233], Some n_utf8, false) /\
+  outcome (c_dammit (MBytes [99; 233]) no_args) = (Some [99; 233], Some n_windows1252, false) /\
+  outcome (c_dammit (MBytes [99; 233; 129]) no_args) = (Some [99; 65533], Some n_utf8, true).
+Proof. vm_compute. repeat split; reflexivity. Qed.
